@@ -179,7 +179,7 @@ fn verif_grid() {
                 executor.execute().map_err(|e| format!("the interrupted run reports an error: {}", e))
             });
             let t0 = std::time::Instant::now();
-            while !worker.is_finished() && t0.elapsed() < std::time::Duration::from_secs(5) { std::thread::sleep(std::time::Duration::from_millis(10)); }
+            while !worker.is_finished() && t0.elapsed() < std::time::Duration::from_secs(20) { std::thread::sleep(std::time::Duration::from_millis(10)); }
             std::io::stdout().flush().unwrap();
             unsafe { dup2(saved, 1); close(saved); }
             let mut text = String::new();
